@@ -194,3 +194,258 @@ Example C04_locs_guard_inhabited_errors :
   let cps := [108;111;99;97;108;32;49;32;61;32;50;32;105;102;32;120;32;116;104;101;110;32;101;108;115;101;32;101;110;100;32;100;111;32;101;110;100;32;120;32;61;32;97;46;98;40;99;41;32;41] in
   lexed_ordered 1000 cps = true /\ parsed_locs_ordered 1000 cps = Some (true, 16%nat).
 Proof. split; vm_compute; reflexivity. Qed.
+
+(* ================================================================== token order from the file class (round 2b, agent
+   c04-lexorder): Proofs/LexerOrderBase.v, LexerOrderMain.v, LexerOrderAst.v.  The guard tok_ordered_b of the Loc-order
+   theorems above is discharged: it holds for every error-free file of the class. *)
+From LH Require Import Proofs.LexerOrderBase Proofs.LexerOrderMain Proofs.LexerOrderAst.
+
+(* the bound on the line width, an arithmetic condition on the file: W is at least the longest line of the file
+   measured in BYTES of its UTF-8 form, lines ending at CR or LF
+       line_width_ok W cps  =  (Z.of_nat (max_line_bytes (utf8_of cps)) <=? W)
+   (bytes are a sufficient measure, chosen because the lexer's column counts bytes inside short comments and on the `#`
+   line; W only serves to compare (line, column) pairs, every larger W gives the same order) *)
+Example C04_line_width_example :
+  max_line_bytes (utf8_of [120;32;61;32;34;20013;25991;34;13;10;121;32;61;32;49;10;10;122]) = 12%nat.
+Proof. vm_compute. reflexivity. Qed.
+
+(* goal 1: for every valid-UTF-8 file inside file_class_ok that lexes without lexical error, every GBK oracle and every
+   W >= the longest line: the token list the parser sees (= the lexer's list) is key-ordered: every token is recorded in
+   the one-line form, starts before it ends (EOF is empty), and ends before the next one starts, positions compared by
+   line * W + column: the tokens' Locs do not overlap and increase in (line, column) *)
+Theorem C04_tokens_ordered : forall W gbk cps ts,
+  forallb scalar cps = true -> file_class_ok cps = true -> line_width_ok W cps = true ->
+  lex_all gbk (utf8_of cps) = Ok ts -> cls_lexerr ts = false ->
+  tok_ordered_b W (parser_view ts) = true.
+Proof. exact tokens_ordered_b. Qed.
+Print Assumptions C04_tokens_ordered.
+
+(* the same in Prop form, with the fact that nothing is lost between lexer and parser *)
+Theorem C04_tokens_ordered_prop : forall W gbk cps ts,
+  forallb scalar cps = true -> file_class_ok cps = true -> line_width_ok W cps = true ->
+  lex_all gbk (utf8_of cps) = Ok ts -> cls_lexerr ts = false ->
+  parser_view ts = ts /\ TokOrd (wkey W) ts.
+Proof. exact tokens_TokOrd. Qed.
+Print Assumptions C04_tokens_ordered_prop.
+
+(* the class guard matters: x = [[s]] y = 1 - after a long-bracket string lineStartPos is moved behind the token start,
+   the string token is not in the one-line form (for no W); and the width matters: the 48-byte example file is ordered
+   for W = 48 but not for W = 40 *)
+Example C04_tokens_order_long_bracket :
+  let cps := [120;32;61;32;91;91;115;93;93;32;121;32;61;32;49] in
+  cls_long_bracket cps = true /\ lexed_ordered 1000000 cps = false.
+Proof. split; vm_compute; reflexivity. Qed.
+Example C04_tokens_order_width :
+  let cps := [108;111;99;97;108;32;102;117;110;99;116;105;111;110;32;102;40;97;44;32;46;46;46;41;13;10;32;32;102;111;114;32;105;32;61;32;49;44;32;97;32;100;111;32;108;111;99;97;108;32;115;32;60;99;111;110;115;116;62;32;61;32;34;20013;25991;34;32;101;110;100;10;32;102;111;114;32;107;44;32;118;32;105;110;32;112;97;105;114;115;40;116;41;32;100;111;32;120;46;121;58;109;40;107;41;32;101;110;100;32;45;45;32;99;13;10;32;101;110;100;10;32;102;117;110;99;116;105;111;110;32;111;46;112;58;113;40;122;41;32;114;101;116;117;114;110;32;115;101;108;102;44;32;122;32;101;110;100] in
+  forallb scalar cps = true /\ file_class_ok cps = true /\ max_line_bytes (utf8_of cps) = 48%nat /\
+  line_width_ok 48 cps = true /\ lexed_ordered 48 cps = true /\ lexed_ordered 40 cps = false.
+Proof. repeat split; vm_compute; reflexivity. Qed.
+
+(* goal 2: C04_ast_locs_ordered_partial without the token-order hypothesis.  For every valid-UTF-8 file inside
+   file_class_ok that lexes without lexical error - with or without syntax errors - every statement / expression / name
+   Loc and every then / elseif / else block Loc of the AST is zero_loc (synthesized node) or has start <= end.
+   Still `_partial` with respect to C04_ast_loc_wf_full: the plain block Locs (inverted when the block is empty) and the
+   containment of children (false for calls) are not covered - they are refuted above. *)
+Theorem C04_ast_locs_ordered_file_partial : forall W gbk classify cps ts b le pe,
+  forallb scalar cps = true -> file_class_ok cps = true -> line_width_ok W cps = true ->
+  lex_all gbk (utf8_of cps) = Ok ts -> cls_lexerr ts = false ->
+  parse_bytes gbk classify (utf8_of cps) = Ok (PR b le pe) ->
+  all_locs_ordered W b = true.
+Proof. exact ast_locs_ordered_file. Qed.
+Print Assumptions C04_ast_locs_ordered_file_partial.
+
+(* the error-free parse: no hypothesis about the lexer at all *)
+Theorem C04_ast_locs_ordered_clean_partial : forall W gbk classify cps b,
+  forallb scalar cps = true -> file_class_ok cps = true -> line_width_ok W cps = true ->
+  parse_bytes gbk classify (utf8_of cps) = Ok (PR b [] []) ->
+  all_locs_ordered W b = true.
+Proof. exact ast_locs_ordered_clean. Qed.
+Print Assumptions C04_ast_locs_ordered_clean_partial.
+
+(* ... and every such Loc lies between the start of the first token and the end of the EOF token of the file *)
+Theorem C04_ast_locs_within_file_partial : forall W gbk classify cps ts b le pe,
+  forallb scalar cps = true -> file_class_ok cps = true -> line_width_ok W cps = true ->
+  lex_all gbk (utf8_of cps) = Ok ts -> cls_lexerr ts = false ->
+  parse_bytes gbk classify (utf8_of cps) = Ok (PR b le pe) ->
+  WithinL (wkey W) (lo (wkey W) (SL (first_tok ts))) (locs_block b) (hi (wkey W) (SL (last_tok ts))).
+Proof. exact ast_locs_within_file. Qed.
+Print Assumptions C04_ast_locs_within_file_partial.
+
+(* parser level, for EVERY key function and every key-ordered token list ending in EOF: both end points of every such
+   Loc are end points (start or end position) of tokens of the list - no Loc starts or ends inside a token or in white
+   space.  (Instance of C04_ast_locs_within_partial for a key that sends all other positions below the first token.) *)
+Theorem C04_ast_locs_on_token_bounds : forall key classify ts, wfr ts -> TokOrd key ts -> forall fuel b le pe,
+  parse_tokens classify fuel ts = Ok (PR b le pe) ->
+  forallb (loc_on_bounds ts) (locs_block b) = true.
+Proof. exact parse_tokens_locs_on_bounds. Qed.
+Print Assumptions C04_ast_locs_on_token_bounds.
+
+(* from the bytes, for the file class *)
+Theorem C04_ast_locs_on_token_bounds_file : forall gbk classify cps ts b le pe,
+  forallb scalar cps = true -> file_class_ok cps = true ->
+  lex_all gbk (utf8_of cps) = Ok ts -> cls_lexerr ts = false ->
+  parse_bytes gbk classify (utf8_of cps) = Ok (PR b le pe) ->
+  forallb (loc_on_bounds ts) (locs_block b) = true.
+Proof. exact ast_locs_on_bounds_file. Qed.
+Print Assumptions C04_ast_locs_on_token_bounds_file.
+
+(* ------------------------------------------------------------------ within the document (agent c04-lexorder)
+   Proofs/LexerOrderDoc.v, LexerOrderDocAst.v.  loc_in_doc cps l: both end points of l are positions of the document
+   (LSP reading) and start index <= end index, i.e. loc_to_range l = Some r and range_index cps r is defined. *)
+From LH Require Import Proofs.LexerOrderDoc Proofs.LexerOrderDocAst.
+
+Definition lexed_in_doc (cps : list N) : option (bool * nat) :=
+  match lex_all (fun _ => 0%Z) (utf8_of cps) with Ok ts => Some (all_tokens_in_doc cps ts, length ts) | _ => None end.
+(* (all Locs zero / in the document / at EOF,  all Locs zero / in the document,  number of Locs) *)
+Definition parsed_in_doc (cps : list N) : option (bool * bool * nat) :=
+  match lex_all (fun _ => 0%Z) (utf8_of cps), parse_bytes (fun _ => 0%Z) classify_tok (utf8_of cps) with
+  | Ok ts, Ok (PR b _ _) => Some (forallb (loc_doc_ok cps ts) (locs_block b),
+                                  forallb (fun l => is_zero_loc l || loc_in_doc cps l) (locs_block b),
+                                  length (locs_block b))
+  | _, _ => None
+  end.
+
+(* token level, ALL kinds of tokens (C04_tok_range_exact speaks about the tokens recorded verbatim; this one includes
+   the string tokens): in every error-free file of the class the range of every token except EOF lies in the document *)
+Theorem C04_tokens_in_document : forall gbk cps ts,
+  forallb scalar cps = true -> file_class_ok cps = true ->
+  lex_all gbk (utf8_of cps) = Ok ts -> cls_lexerr ts = false ->
+  all_tokens_in_doc cps ts = true.
+Proof. exact tokens_in_doc. Qed.
+Print Assumptions C04_tokens_in_document.
+
+(* goal 2, "lies within the document": for every valid-UTF-8 file inside file_class_ok that lexes without lexical error
+   - with or without syntax errors - every statement / expression / name Loc and every then / elseif / else block Loc of
+   the AST is zero_loc (synthesized node), or lies in the document (both end points are document positions, start <=
+   end), or has an end point at the position of the EOF token.
+   `_partial`: the EOF exception is real (example below); the plain block Locs are not covered (inverted when empty). *)
+Theorem C04_ast_locs_in_document_partial : forall gbk classify cps ts b le pe,
+  forallb scalar cps = true -> file_class_ok cps = true ->
+  lex_all gbk (utf8_of cps) = Ok ts -> cls_lexerr ts = false ->
+  parse_bytes gbk classify (utf8_of cps) = Ok (PR b le pe) ->
+  forallb (loc_doc_ok cps ts) (locs_block b) = true.
+Proof. exact ast_locs_in_doc. Qed.
+Print Assumptions C04_ast_locs_in_document_partial.
+
+Definition C04_ast_locs_in_document_full : Prop := forall gbk classify cps ts b le pe,
+  forallb scalar cps = true -> file_class_ok cps = true ->
+  lex_all gbk (utf8_of cps) = Ok ts -> cls_lexerr ts = false ->
+  parse_bytes gbk classify (utf8_of cps) = Ok (PR b le pe) ->
+  forallb (fun l => is_zero_loc l || loc_in_doc cps l) (locs_block b) = true.
+
+(* x = --中文 : inside a short comment the lexer's column counts BYTES, the EOF token is recorded at 1:12 while the line
+   has 8 characters; the syntax error "expression expected" and the statement x = <bad> end there: the full statement is
+   false, the EOF clause of the partial one is needed *)
+Theorem C04_eof_after_comment_refuted : ~ C04_ast_locs_in_document_full.
+Proof.
+  intros H.
+  specialize (H (fun _ => 0%Z) classify_tok [120;32;61;32;45;45;20013;25991]).
+  vm_compute in H. specialize (H _ _ _ _ eq_refl eq_refl eq_refl eq_refl eq_refl). discriminate.
+Qed.
+Print Assumptions C04_eof_after_comment_refuted.
+
+Example C04_eof_after_comment :
+  let cps := [120;32;61;32;45;45;20013;25991] in
+  forallb scalar cps = true /\ file_class_ok cps = true /\
+  lexed_in_doc cps = Some (true, 3%nat) /\ parsed_in_doc cps = Some (true, false, 3%nat) /\
+  loc_in_doc cps (mkLoc 1 8 1 8) = true /\ loc_in_doc cps (mkLoc 1 12 1 12) = false.
+Proof. repeat split; vm_compute; reflexivity. Qed.
+
+(* non-vacuity: the example file above (58 tokens, 35 Locs, all in the document) and the file with syntax errors *)
+Example C04_in_document_inhabited :
+  let cps := [108;111;99;97;108;32;102;117;110;99;116;105;111;110;32;102;40;97;44;32;46;46;46;41;13;10;32;32;102;111;114;32;105;32;61;32;49;44;32;97;32;100;111;32;108;111;99;97;108;32;115;32;60;99;111;110;115;116;62;32;61;32;34;20013;25991;34;32;101;110;100;10;32;102;111;114;32;107;44;32;118;32;105;110;32;112;97;105;114;115;40;116;41;32;100;111;32;120;46;121;58;109;40;107;41;32;101;110;100;32;45;45;32;99;13;10;32;101;110;100;10;32;102;117;110;99;116;105;111;110;32;111;46;112;58;113;40;122;41;32;114;101;116;117;114;110;32;115;101;108;102;44;32;122;32;101;110;100] in
+  lexed_in_doc cps = Some (true, 58%nat) /\ parsed_in_doc cps = Some (true, true, 35%nat).
+Proof. split; vm_compute; reflexivity. Qed.
+Example C04_in_document_inhabited_errors :
+  let cps := [108;111;99;97;108;32;49;32;61;32;50;32;105;102;32;120;32;116;104;101;110;32;101;108;115;101;32;101;110;100;32;100;111;32;101;110;100;32;120;32;61;32;97;46;98;40;99;41;32;41] in
+  parsed_in_doc cps = Some (true, true, 16%nat).
+Proof. vm_compute; reflexivity. Qed.
+
+(* "non-overlapping and increasing" in document terms: in every error-free file of the class the range of every token
+   ends (index in code points, LSP reading of the document) at or before the start of the range of the next token *)
+Theorem C04_tokens_disjoint_in_document : forall gbk cps ts,
+  forallb scalar cps = true -> file_class_ok cps = true ->
+  lex_all gbk (utf8_of cps) = Ok ts -> cls_lexerr ts = false ->
+  doc_chain_b cps (map lt ts) = true.
+Proof. exact tokens_disjoint_in_doc. Qed.
+Print Assumptions C04_tokens_disjoint_in_document.
+
+Example C04_tokens_disjoint_example :
+  let cps := [108;111;99;97;108;32;115;32;61;32;34;20013;25991;34;32;120;32;45;45;32;99;13;10;9;121;32;61;32;115] in
+  match lex_all (fun _ => 0%Z) (utf8_of cps) with
+  | Ok ts => map (fun t => tok_range_index cps (lt t)) ts =
+             [Some (0, 5); Some (6, 7); Some (8, 9); Some (10, 14); Some (15, 16); Some (24, 25); Some (26, 27);
+              Some (28, 29); Some (29, 29)] /\ doc_chain_b cps (map lt ts) = true
+  | _ => False
+  end.
+Proof. vm_compute. split; reflexivity. Qed.
+
+(* ------------------------------------------------------------------ the error-free parse: no EOF clause (agent
+   c04-lexorder): Proofs/LexerOrderEof.v (a pass over the 20 parser functions: while no syntax error has been reported
+   the parser never stands ON the EOF token - every `next` is guarded by a test of the look-ahead that excludes EOF). *)
+From LH Require Import Proofs.LexerOrderEof.
+
+(* parser level, for EVERY key function and every key-ordered token list whose only EOF token is the last one: after a
+   parse without syntax error the AST has no Loc at all (nothing but EOF), or every Loc lies between the start of the
+   first token and the END OF A NON-EOF TOKEN (the last one consumed) *)
+Theorem C04_ast_locs_within_clean_partial : forall key classify ts, wf_tokens ts -> TokOrd key ts -> forall fuel b le,
+  parse_tokens classify fuel ts = Ok (PR b le []) ->
+  locs_block b = [] \/
+  exists n, In n (map lt ts) /\ tk n <> TkEOF /\
+            WithinL key (lo key (SL (first_tok ts))) (locs_block b) (hi key (SL n)).
+Proof. exact parse_tokens_locs_within_clean. Qed.
+Print Assumptions C04_ast_locs_within_clean_partial.
+
+(* goal 2 for the files the language server analyses further: for every valid-UTF-8 file inside file_class_ok that parses
+   without lexical and without syntax error, for every GBK oracle and numeral classifier, every statement / expression /
+   name Loc and every then / elseif / else block Loc of the AST is zero_loc (synthesized node: default `for` step) or
+   lies within the document - both end points are positions of the document (LSP reading) and start <= end.
+   (With syntax errors: C04_ast_locs_in_document_partial and the refutation C04_eof_after_comment_refuted above.)
+   `_partial` only with respect to C04_ast_loc_wf_full: the own Locs of do / while / for / function / repeat / chunk blocks
+   are not in locs_block (they are inverted for empty blocks: C04_empty_block_loc_inverted) and containment of children
+   is not claimed (false for calls). *)
+Theorem C04_ast_locs_in_document_clean_partial : forall gbk classify cps b,
+  forallb scalar cps = true -> file_class_ok cps = true ->
+  parse_bytes gbk classify (utf8_of cps) = Ok (PR b [] []) ->
+  forallb (fun l => is_zero_loc l || loc_in_doc cps l) (locs_block b) = true.
+Proof. exact ast_locs_in_doc_clean. Qed.
+Print Assumptions C04_ast_locs_in_document_clean_partial.
+
+(* non-vacuity: the 35 Locs of the example file (it parses without error: C04_name_guard_inhabited); and a file that
+   ends in a short comment with CJK text, whose EOF token is beyond the line end but is not used by any Loc *)
+Example C04_in_document_clean_inhabited :
+  let cps := [108;111;99;97;108;32;120;32;61;32;102;40;49;41;32;45;45;20013;25991] in
+  forallb scalar cps = true /\ file_class_ok cps = true /\
+  parse_bytes (fun _ => 0%Z) classify_tok (utf8_of cps) =
+    Ok (PR (Block [SLocal [[120]] [mkLoc 1 6 1 7] [AttrReg]
+                     [ECall (EName [102] (mkLoc 1 10 1 11)) None [EInt 1 (mkLoc 1 12 1 13)] (mkLoc 1 10 1 14)]
+                     (mkLoc 1 0 1 14)] None (mkLoc 1 0 1 14)) [] []) /\
+  parsed_in_doc cps = Some (true, true, 5%nat) /\ loc_in_doc cps (mkLoc 1 23 1 23) = false.
+Proof. repeat split; vm_compute; reflexivity. Qed.
+
+(* ------------------------------------------------------------------ goal 1 with the tight width (agent c04-lexorder):
+   W >= the longest line of the document in UTF-16 units,
+       line_units_ok W cps  =  (Z.of_N (max_line_units cps) <=? W),   max_line_units = the largest column of the position
+   table of the document (Spec/LspText.v).  Derived from the byte version and C04_tokens_in_document. *)
+Theorem C04_tokens_ordered_units : forall W gbk cps ts,
+  forallb scalar cps = true -> file_class_ok cps = true -> line_units_ok W cps = true ->
+  lex_all gbk (utf8_of cps) = Ok ts -> cls_lexerr ts = false ->
+  tok_ordered_b W (parser_view ts) = true.
+Proof. exact tokens_ordered_units_b. Qed.
+Print Assumptions C04_tokens_ordered_units.
+
+Theorem C04_ast_locs_ordered_units_partial : forall W gbk classify cps ts b le pe,
+  forallb scalar cps = true -> file_class_ok cps = true -> line_units_ok W cps = true ->
+  lex_all gbk (utf8_of cps) = Ok ts -> cls_lexerr ts = false ->
+  parse_bytes gbk classify (utf8_of cps) = Ok (PR b le pe) ->
+  all_locs_ordered W b = true.
+Proof. exact ast_locs_ordered_units. Qed.
+Print Assumptions C04_ast_locs_ordered_units_partial.
+
+(* local s = "<4 CJK>" --<2 CJK> LF x = 1 : the longest line has 21 UTF-16 units and 33 bytes; ordered for W = 21 *)
+Example C04_tokens_ordered_units_example :
+  let cps := [108;111;99;97;108;32;115;32;61;32;34;20013;25991;20013;25991;34;32;45;45;20013;25991;10;120;32;61;32;49] in
+  forallb scalar cps = true /\ file_class_ok cps = true /\ max_line_units cps = 21%N /\
+  max_line_bytes (utf8_of cps) = 33%nat /\ line_units_ok 21 cps = true /\ lexed_ordered 21 cps = true /\
+  lexed_ordered 15 cps = false.
+Proof. repeat split; vm_compute; reflexivity. Qed.
